@@ -466,7 +466,8 @@ impl<'a, 'b> Renderer<'a, 'b> {
                     self.out.push_str(" # größe 中文 😀 é\n");
                     self.kinds |= K_COMMENT | K_NONASCII;
                 } else {
-                    self.out.push_str(" #x\n");
+                    // short comments: one character, empty, blank, two in a row
+                    self.out.push_str(*self.src.pick(&[" #x\n", " #\n", " # \n", " #\n #\n", " # a\n  # b\n"]));
                     self.kinds |= K_COMMENT;
                 }
             }
